@@ -3,6 +3,7 @@ import Proofs.LineNumbersUnified
 import Proofs.LineNumbersSbs2
 import Proofs.LineNumbersHeader
 import Proofs.Machine.HunkCounter
+import Proofs.WholeDiff
 /-!
 C05 — displayed line numbers are the true old/new file line numbers.
 
@@ -344,5 +345,101 @@ example : Generated.LineNum.headerParseRejects = true →
   rw [f]
   simp only [e, h, if_true]
 example : headerNumber [] = .error "attempt to subtract with overflow" := by rfl
+
+-- whole diffs: many files, many hunks ----------------------------------------------------------------
+
+section WholeDiffs
+open LineNumbers.Whole
+
+/-- **Whole input: every hunk of every file is numbered from its own header.** For every `line-buffer-size`
+    and every two-way diff — any number of file sections (each with the pair of names the state machine holds
+    after its header lines), each with any number of hunks `@@ -a[,b] +c[,d] @@frag` (counts omitted or not,
+    zero-length sides included) followed by the lines of the hunk (kinds `ks`, at least one) — the run of the
+    model of `handle_hunk_header_line` / `handle_hunk_line` / `emit_hunk_header_line` /
+    `LineNumbersData::initialize_hunk` (statement orders, assigned fields, call arguments regenerated from the
+    source) ends without panic, and its rows are `diffRows`: file by file, hunk by hunk,
+    * the hunk-header row carrying the path of **that** file (plus file, minus file for `/dev/null`) and `c`,
+      the start of **that** hunk in the new file;
+    * then one row per line, in input order, the `k`-th showing `a + #{old-file lines among the first k of this
+      hunk}` / `c + #{new-file lines among them}` (see `whole_diff_row_reading`), painted while the width of the
+      number fields is the digit count of `max (a+b) (c+d)` of **this** header and the plus-file name is that of
+      **this** file.
+    Nothing of an earlier hunk or file reaches a later one: not the counters (where the previous hunk stopped,
+    lines of it still buffered when the next header arrives — they are painted first, with the old numbers), not
+    the width, not the name. -/
+theorem whole_diff_numbers_true (bufSize : Nat) (fs : List FileSec) (hw : ∀ f ∈ fs, ∀ h ∈ f.hunks, h.wf) :
+    runWhole bufSize (diffItems fs) = .ok (diffRows fs) :=
+  runWhole_spec bufSize fs hw
+
+/-- how to read `Hunk.rows`: row 0 is the header row, row `k + 1` is line `k` with its numbers in the counting
+    form of the property statement -/
+theorem whole_diff_row_reading (mf pf : String) (h : Hunk) (k : Nat) (hk : k < h.ks.length) :
+    (h.rows mf pf)[0]? = some (.header (if pf = "/dev/null" then mf else pf) h.c) ∧
+    ∃ cell, (h.rows mf pf)[k + 1]? = some (.line (some cell) h.width pf) ∧
+      cell.left = (if h.ks[k].isOld then some (h.a + countOld (h.ks.take k)) else none) ∧
+      cell.right = (if h.ks[k].isNew then some (h.c + countNew (h.ks.take k)) else none) := by
+  refine ⟨by simp [Hunk.rows, headerPath_eq], trueCell (h.a + countOld (h.ks.take k)) (h.c + countNew (h.ks.take k)) h.ks[k], ?_, ?_, ?_⟩
+  · simp [Hunk.rows, List.getElem?_map, trueRows_getElem h.ks h.a h.c k hk]
+  · simp [trueCell, Cell.left]
+  · simp [trueCell, Cell.right]
+
+/-- **A hunk is shown the same whatever came before it.** From *any* state earlier input can leave behind
+    (counters anywhere, lines of the previous hunk still buffered, any width and plus-file name in the
+    line-number data; `Fits`: the numbers of the buffered lines fit `usize`), the items of a hunk add exactly
+    `h.rows` for the file names then current, after the rows the earlier input settles to. -/
+theorem hunk_shown_independent_of_history (bufSize : Nat) (h : Hunk) (hw : h.wf) (s : WState) (hf : Fits s) :
+    ∃ s', stepItems bufSize s h.items = .ok s' ∧
+      settled s' = settled s ++ h.rows s.minusFile s.plusFile ∧ Fits s' :=
+  let ⟨s', e, hs, hf', _, _⟩ := hunk_spec bufSize h hw s hf
+  ⟨s', e, hs, hf'⟩
+
+/-- **`initialize_hunk` leaves nothing of the previous hunk**, read off the source: it assigns every field of
+    `LineNumbersData` except the parsed format strings; no new value reads `self` (the extractor stops
+    otherwise), the counters and the width come from the header's coordinate list, the name from the
+    `plus_file` argument, and the one call in `src/` passes this header's list and the state machine's current
+    `plus_file`; the handler of the `@@` line itself only parks the parsed header; `emit_hunk_header_line` is
+    called for the first line of a hunk (`handle_hunk_line`) and for a conflict region that opens one. -/
+theorem initialize_hunk_resets_everything :
+    (Generated.HunkInit.lnDataFields.filter (· ≠ "format_data")).all assigns = true ∧
+    (∀ a ∈ Generated.HunkInit.initAssigns, a.2 = (if a.1 = "plus_file" then ["plus_file"] else ["line_numbers"])) ∧
+    Generated.HunkInit.initArgs = ("line_numbers_and_hunk_lengths", "self.plus_file") ∧
+    Generated.HunkInit.initGuard = "self.config.line_numbers" ∧
+    Generated.HunkInit.initCallSites = [("src/handlers/hunk_header.rs", "emit_hunk_header_line")] ∧
+    Generated.HunkInit.headerLineOps = ["set_state_hunk_header"] ∧
+    Generated.HunkInit.emitHeaderCallSites =
+      [("src/handlers/hunk.rs", "handle_hunk_line"), ("src/handlers/merge_conflict.rs", "enter_merge_conflict")] := by
+  refine ⟨by decide, by decide, rfl, rfl, rfl, rfl, rfl⟩
+
+/-- two files, three hunks: the second hunk starts below the first one's end, omits both counts, and arrives
+    while two removed lines of the first hunk are still buffered; the third belongs to a deleted file
+    (`+++ /dev/null`, new side `+0,0`) and needs seven digits -/
+def wholeSample : List FileSec :=
+  [⟨"src/a.rs", "src/a.rs",
+     [⟨119, some 3, 120, some 1, " fn f(".toList, [.ctx, .minus, .minus]⟩,
+      ⟨7, none, 9, none, [], [.minus, .plus]⟩]⟩,
+   ⟨"old/b.txt", "/dev/null", [⟨1234567, some 2, 0, some 0, [], [.minus, .minus]⟩]⟩]
+
+/-- the hypotheses hold of it … -/
+example : ∀ f ∈ wholeSample, ∀ h ∈ f.hunks, h.wf := by decide
+/-- … its items … -/
+example : (diffItems wholeSample).length = 12 ∧
+    (diffItems wholeSample)[1]? = some (.header "@@ -119,3 +120,1 @@ fn f(".toList) ∧
+    (diffItems wholeSample)[5]? = some (.header "@@ -7 +9 @@".toList) := by decide
+/-- … and what the model computes for them (buffer size 32: nothing is painted early) -/
+example : (runWhole 32 (diffItems wholeSample)).toOption.map (·.map fun r => match r with
+      | .header p n => (p, n, none, none, 0)
+      | .line c w pf => (pf, 0, c.bind Cell.left, c.bind Cell.right, w)) =
+    some [("src/a.rs", 120, none, none, 0), ("src/a.rs", 0, some 119, some 120, 3), ("src/a.rs", 0, some 120, none, 3),
+      ("src/a.rs", 0, some 121, none, 3),
+      ("src/a.rs", 9, none, none, 0), ("src/a.rs", 0, some 7, none, 2), ("src/a.rs", 0, none, some 9, 2),
+      ("old/b.txt", 0, none, none, 0), ("/dev/null", 0, some 1234567, none, 7), ("/dev/null", 0, some 1234568, none, 7)] := by
+  rfl
+
+/-- `h.ks ≠ []` is needed: a header that no hunk line follows is never written (C02
+    `dangling_hunk_header_dropped`; git produces no such input) -/
+example : runWhole 32 [.names "a" "a", .header "@@ -1 +1 @@".toList, .names "b" "b",
+    .header "@@ -5 +6 @@".toList] = .ok [] := by rfl
+
+end WholeDiffs
 
 end C05
